@@ -1478,7 +1478,9 @@ class SyncObj(object):
 
             if self.__conf.dynamicMembershipChange:
                 self.__updateClusterConfiguration([node for node in data[3] if node != self.__selfNode])
-            self.__onSetCodeVersion(0)
+            # The enabled code version is part of the loaded state: the table that maps method
+            # names to their implementations has to follow it (it was reset to version 0 here).
+            self.__onSetCodeVersion(min(self.__enabledCodeVersion, self.__selfCodeVersion))
         except:
             logger.exception('failed to load full dump')
             self.__serializer.acceptTransmission(False)
